@@ -365,31 +365,6 @@ func elemLabel(e ast.Element) string {
 	return s
 }
 
-// opClass groups binary operators by precedence level (the printer decides
-// parentheses by level, so one defect shows as one class, not 19).
-func opClass(op ast.Operation) string {
-	switch op {
-	case ast.OperationOr:
-		return "or"
-	case ast.OperationAnd:
-		return "and"
-	case ast.OperationLess, ast.OperationLessEqual, ast.OperationGreater, ast.OperationGreaterEqual,
-		ast.OperationEqual, ast.OperationNotEqual:
-		return "cmp:" + op.Symbol()
-	case ast.OperationNilCoalesce:
-		return "??"
-	case ast.OperationBitwiseOr, ast.OperationBitwiseXor, ast.OperationBitwiseAnd:
-		return "bit"
-	case ast.OperationBitwiseLeftShift, ast.OperationBitwiseRightShift:
-		return "shift"
-	case ast.OperationPlus, ast.OperationMinus:
-		return "add"
-	case ast.OperationMul, ast.OperationDiv, ast.OperationMod:
-		return "mul"
-	}
-	return op.Symbol()
-}
-
 func children(e ast.Element) (out []ast.Element) {
 	defer func() { recover() }()
 	e.Walk(func(c ast.Element) {
